@@ -92,6 +92,7 @@ def TaskWf (c : Core) : Task → Prop
   | .fan item dest cur save => NF c item ∧ NF c dest ∧ (∀ ob, cur = some ob → NF c ob) ∧ (c.objs item).super = some dest ∧
       (∀ g, save = some g → NF c g)
   | .command a _ => NF c a
+  | .cmdloop a _ _ _ => NF c a
   | .present _ _ cur => ∀ ob, cur = some ob → NF c ob
   | .destruct ob => NF c ob
   | .dloop ob sup0 _ => NF c ob ∧ (c.objs ob).destructed = false ∧ (∀ s, sup0 = some s → NF c s)
